@@ -536,6 +536,8 @@ def run(ctx, tier):
     results += c16.grow(ctx, rule='C09.grow')
     import c11
     results += c11.remap_on_success(ctx, rule='C09.remap-on-success')
+    # a writer that begins after a growing commit sees that commit: every successful growth replaces the shared map (no `try_write` that gives up while readers are open)
+    results += c16.remap_always(ctx, rule='C09.remap-always')
     results += c13.file_lock_clauses(ctx, 'C09')
     # "a writer that begins after another's commit sees that commit" includes its free list: published behind the header on every exit, by the commit itself
     ob = commit.obligations(ctx)
